@@ -323,6 +323,15 @@ class Machine(object):
                 outcome = 'ok'
                 if self.recovery == 1:
                     self.recovery = 3
+        elif op == 'ext_create_sibling':
+            name = mdl.bound + st['suffix']
+            if not mdl.exists(name):
+                content = {'garbage': GARBAGE, 'yanny': OTHER_YANNY}[st['content']]
+                with open(self.path(name), 'wb') as f:
+                    f.write(content)
+                mdl.files[name] = content
+                outcome = 'ok'
+                self.probes['bystander_named_after_bound_file'] += 1
         elif op == 'ext_create':
             if not mdl.exists(st['name']) and st['name'] != mdl.bound:
                 if st['content'] == 'dir':
